@@ -51,6 +51,9 @@ func fenTotal(s string) string {
 	if !viewsOK(p) {
 		return "bad:views"
 	}
+	if np < 0 || fm < 0 {
+		return "bad:negative-clock" // a count of half-moves / a move number: not a well-formed value below zero
+	}
 	if *p2 != *p || t2 != turn || np2 != np || fm2 != fm {
 		return "bad:roundtrip"
 	}
